@@ -395,6 +395,29 @@ class Check:
                 stats = json.loads(line[6:])
         return stats, r
 
+    def drive(self, exe, argsets, timeout=1800, env=None, tag="t"):
+        """Run one driver process per element of argsets (each a list in which the string
+        "@OUT" is replaced by that shard's trace path) in parallel.  A driver that dies
+        (signal, sanitizer report, watchdog) leaves its partial trace; a Crash event with
+        the tail of stderr is appended so that the trace specification rejects it."""
+        paths = [os.path.join(self.scratch, "%s_%d.ndjson" % (tag, i)) for i in range(len(argsets))]
+
+        def mk(i):
+            def f():
+                args = [paths[i] if a == "@OUT" else a for a in argsets[i]]
+                stats, r = self.run_driver(exe, args, timeout=timeout, env=env, check=False)
+                if r.returncode != 0:
+                    with open(paths[i], "a") as fh:
+                        fh.write(json.dumps({"e": "Crash", "rc": r.returncode, "args": [str(a) for a in args[1:]],
+                                             "stderr": r.stderr[-2500:]}) + "\n")
+                    if not stats:
+                        stats = {"events": 0, "histories": 0, "distinct": 0}
+                return stats
+            return f
+        for st in run_parallel([mk(i) for i in range(len(argsets))]):
+            self.add_stats(st)
+        return paths
+
     def add_stats(self, stats):
         self.traces += stats.get("histories", 0)
         self.evaluations += stats.get("events", 0)
